@@ -2,7 +2,8 @@
 """Cross-check of the extraction for engine `compvec` (DESIGN.md 2.2): a few generated histories are evaluated
 (a) by the extracted OCaml model (driver engine `compvecx`) and (b) inside Coq with vm_compute on the same
 definitions (Vec/CvInst.x_trace_digest); the digests of the whole runs must be equal.
-usage: tools/cv_crosscheck.py [--cases N] [--seed S]      exit 0 = all equal"""
+usage: tools/cv_crosscheck.py [--cases N] [--seed S]
+Prints ONE summary line on stdout (details on stderr); exit 0 = all equal, 1 = a digest differs, 2 = not evaluated."""
 import os, re, subprocess, sys
 ROOT = os.path.dirname(os.path.dirname(os.path.abspath(__file__)))
 def main():
@@ -37,12 +38,13 @@ def main():
                        capture_output=True, text=True, cwd=os.path.join(ROOT, "coq"), timeout=1500)
     vals = [int(x) for x in re.findall(r"=\s*(\d+)\s*\n\s*:\s*N", p.stdout)]
     if p.returncode != 0 or len(vals) != len(ids):
-        print("cross-check could not be evaluated:", p.stderr[-800:], f"({len(vals)} of {len(ids)} values)")
+        print(f"extraction cross-check compvec: NOT EVALUATED ({len(vals)} of {len(ids)} values computed by coqc)")
+        sys.stderr.write(p.stderr[-800:] + "\n")
         return 2
     bad = [(i, dig[i], v) for i, v in zip(ids, vals) if dig[i] != v]
     print(f"extraction cross-check compvec: {len(ids)} histories, {len(ids) - len(bad)} equal, {len(bad)} different")
     for i, d, v in bad[:5]:
-        print(f"  case {i}: ocaml {d} coq {v}")
+        sys.stderr.write(f"  case {i}: ocaml {d} coq {v}\n")
     return 1 if bad else 0
 if __name__ == "__main__":
     sys.exit(main())
